@@ -1138,7 +1138,9 @@ theorem localeKeys_np (fuel : Nat) (top : Str)
       split
       · rfl
       · rename_i q hq; rw [hq] at this; simp at this
-      · exact ihl _ (by omega)
+      · split
+        · rfl
+        · exact ihl _ (by omega)
 
 /-- the `pair` closure of `Decode.value` (one `(range, value)` pair), as a named function -/
 def pairF (fuel : Nat) (top : Str) (t : RangeTy) (x : J) : Res (Range × PV) :=
